@@ -2,7 +2,9 @@
    with the same A is accepted on the same inputs (hence every edit confined to one field of the 80-byte encoding, in
    particular each of the 640 single-bit flips, is rejected: with codec canonicity, C09).
    Reduction part: acceptance of one signature for two different (messages, header) of the same length CONSTRUCTS a
-   collision of the message hash, a collision of the domain hash, or a non-trivial discrete-log relation among Q1, H_i. *)
+   collision of the message hash, a collision of the domain hash, or a non-trivial discrete-log relation among Q1, H_i;
+   for two message lists of DIFFERENT lengths (insert / delete / truncate / extend) a non-trivial relation among the longer
+   statement's generators or a collision of the domain hash on two explicit inputs that carry different counts. *)
 From ZK Require Import Laws SignProofs UpdateProofs Separation Binding.
 
 Theorem C02_verify_rejects_other_A :
@@ -87,3 +89,27 @@ Check (C02_verify_binding_core :
      \/ Collision (fun x => f_of_okm (SO E) (expand E x (api ++ c_h2s (cs E)) 48))
                   (dom_input E pk Q1 H header api) (dom_input E pk Q1 H header' api))).
 Print Assumptions C02_verify_binding_core.
+
+(* insertion / deletion / truncation / extension: the two statements have different lengths *)
+Theorem C02_verify_binding_lengths :
+  forall (E : env) (LW : Laws E) s pk msgs msgs' header header',
+  suite_ok E ->
+  verify E s pk (Some msgs) header = Ok tt ->
+  verify E s pk (Some msgs') header' = Ok tt ->
+  (length msgs < length msgs')%nat -> (len msgs' <= usize_max)%N ->
+  exists Q1 H' dm dm',
+    DLRelation E LW (Q1 :: H') (fsub (SO E) dm dm' :: zip_sub E (map (hm E) msgs ++ repeat (f0 (SO E)) (length msgs' - length msgs)) (map (hm E) msgs')) \/
+    Collision (fun x => f_of_okm (SO E) (expand E x (c_api_id (cs E) ++ c_h2s (cs E)) 48))
+              (dom_input E pk Q1 (firstn (length msgs) H') header (c_api_id (cs E))) (dom_input E pk Q1 H' header' (c_api_id (cs E))).
+Proof. exact verify_binding_lengths. Qed.
+Check (C02_verify_binding_lengths :
+  forall (E : env) (LW : Laws E) s pk msgs msgs' header header',
+  suite_ok E ->
+  verify E s pk (Some msgs) header = Ok tt ->
+  verify E s pk (Some msgs') header' = Ok tt ->
+  (length msgs < length msgs')%nat -> (len msgs' <= usize_max)%N ->
+  exists Q1 H' dm dm',
+    DLRelation E LW (Q1 :: H') (fsub (SO E) dm dm' :: zip_sub E (map (hm E) msgs ++ repeat (f0 (SO E)) (length msgs' - length msgs)) (map (hm E) msgs')) \/
+    Collision (fun x => f_of_okm (SO E) (expand E x (c_api_id (cs E) ++ c_h2s (cs E)) 48))
+              (dom_input E pk Q1 (firstn (length msgs) H') header (c_api_id (cs E))) (dom_input E pk Q1 H' header' (c_api_id (cs E)))).
+Print Assumptions C02_verify_binding_lengths.
